@@ -350,9 +350,41 @@ fn sorted_bytes(b: &[u8]) -> Vec<u8> {
     v
 }
 
+/// Canonical form of a collection cell whose entries come in arbitrary order: header, then the entries sorted.
+pub fn canon_unordered(cell: &[u8], pair: bool) -> String {
+    if cell.len() < 8 {
+        return hex(cell);
+    }
+    let mut p = 8;
+    let mut entries = Vec::new();
+    while p < cell.len() {
+        let start = p;
+        for _ in 0..(if pair { 2 } else { 1 }) {
+            if p + 4 > cell.len() {
+                return hex(cell);
+            }
+            let l = i32::from_be_bytes(cell[p..p + 4].try_into().unwrap());
+            p += 4;
+            if l > 0 {
+                p += l as usize;
+            }
+        }
+        if p > cell.len() {
+            return hex(cell);
+        }
+        entries.push(hex(&cell[start..p]));
+    }
+    entries.sort();
+    format!("{} {}", hex(&cell[..8]), if entries.is_empty() { "-".to_owned() } else { entries.join(",") })
+}
+
 fn line(res: &Result<Vec<u8>, String>, len_only: bool) -> String {
+    line_named(res, len_only, false)
+}
+
+fn line_named(res: &Result<Vec<u8>, String>, len_only: bool, pair: bool) -> String {
     match res {
-        Ok(c) if len_only => format!("ok {}", c.len()),
+        Ok(c) if len_only => format!("ok {}", canon_unordered(c, pair)),
         Ok(c) => hex(c),
         Err(k) => format!("err {}", k),
     }
@@ -379,7 +411,7 @@ where
             }
         }
     }
-    line(&res, len_only)
+    line_named(&res, len_only, matches!(ty, Ty::Map(..)))
 }
 
 /// serialization only (borrowed carriers, `MaybeUnset`)
@@ -494,7 +526,7 @@ carriers!(
     ]
 );
 
-const SER_ONLY: &[&str] = &["strref", "bytesref", "cowstr", "varintborrowed", "decimalborrowed", "munset_i32", "vec_munset_i32", "tup2_munset_string_opt_i64", "bmap_i32_munset_string"];
+const SER_ONLY: &[&str] = &["strref", "bytesref", "cowstr", "varintborrowed", "decimalborrowed", "munset_i32", "vec_munset_i32", "tup2_munset_string_opt_i64", "bmap_i32_munset_string", "slice_i32", "slice_opt_string", "slice_vec_i32", "bytesarr4", "bytesarr16", "dynser_i32", "dynser_vec_string"];
 
 fn run_ser_only(name: &str, ty: &Ty, val: &Val, ctx: &mut Ctx) -> Option<String> {
     Some(match name {
@@ -531,6 +563,41 @@ fn run_ser_only(name: &str, ty: &Ty, val: &Val, ctx: &mut Ctx) -> Option<String>
         "vec_munset_i32" => run_ser::<Vec<MaybeUnset<i32>>, _>(ty, val, ctx, |x| x),
         "tup2_munset_string_opt_i64" => run_ser::<(MaybeUnset<String>, Option<i64>), _>(ty, val, ctx, |x| x),
         "bmap_i32_munset_string" => run_ser::<BTreeMap<i32, MaybeUnset<String>>, _>(ty, val, ctx, |x| x),
+        // `impl SerializeValue for [T]` (value.rs:574-611, its own copy of the `Vec<T>` code)
+        "slice_i32" => run_ser::<Vec<i32>, [i32]>(ty, val, ctx, |x| x.as_slice()),
+        "slice_opt_string" => run_ser::<Vec<Option<String>>, [Option<String>]>(ty, val, ctx, |x| x.as_slice()),
+        "slice_vec_i32" => run_ser::<Vec<Vec<i32>>, [Vec<i32>]>(ty, val, ctx, |x| x.as_slice()),
+        // `impl<const N: usize> SerializeValue for [u8; N]`
+        "bytesarr4" | "bytesarr16" => {
+            let Some(x) = <Vec<u8>>::from_val(val) else { return Some("bad-case".to_owned()) };
+            let ct = to_column_type(ty);
+            let res = if name == "bytesarr4" {
+                let Ok(a) = <[u8; 4]>::try_from(x.as_slice()) else { return Some("bad-case".to_owned()) };
+                serialize_any(&a, &ct, ctx)
+            } else {
+                let Ok(a) = <[u8; 16]>::try_from(x.as_slice()) else { return Some("bad-case".to_owned()) };
+                serialize_any(&a, &ct, ctx)
+            };
+            check_bytes(ty, val, classify(ty, val, true), &res, ctx);
+            line(&res, false)
+        }
+        // through a trait object
+        "dynser_i32" => {
+            let Some(x) = i32::from_val(val) else { return Some("bad-case".to_owned()) };
+            let d: &dyn SerializeValue = &x;
+            let ct = to_column_type(ty);
+            let res = serialize_any(&d, &ct, ctx);
+            check_bytes(ty, val, classify(ty, val, true), &res, ctx);
+            line(&res, false)
+        }
+        "dynser_vec_string" => {
+            let Some(x) = <Vec<String>>::from_val(val) else { return Some("bad-case".to_owned()) };
+            let d: Box<dyn SerializeValue> = Box::new(x);
+            let ct = to_column_type(ty);
+            let res = serialize_any(&d, &ct, ctx);
+            check_bytes(ty, val, classify(ty, val, true), &res, ctx);
+            line(&res, false)
+        }
         _ => return None,
     })
 }
@@ -549,6 +616,13 @@ fn gen_ser_only(name: &str, rng: &mut Rng) -> (Ty, Val) {
         "munset_i32" => g::<MaybeUnset<i32>>(rng),
         "vec_munset_i32" => g::<Vec<MaybeUnset<i32>>>(rng),
         "bmap_i32_munset_string" => g::<BTreeMap<i32, MaybeUnset<String>>>(rng),
+        "slice_i32" => g::<Vec<i32>>(rng),
+        "slice_opt_string" => g::<Vec<Option<String>>>(rng),
+        "slice_vec_i32" => g::<Vec<Vec<i32>>>(rng),
+        "bytesarr4" => (Ty::Native(NativeType::Blob), Val::Blob(rng.bytes(4))),
+        "bytesarr16" => (Ty::Native(NativeType::Blob), Val::Blob(rng.bytes(16))),
+        "dynser_i32" => g::<i32>(rng),
+        "dynser_vec_string" => g::<Vec<String>>(rng),
         _ => g::<(MaybeUnset<String>, Option<i64>)>(rng),
     }
 }
